@@ -152,6 +152,15 @@ def special_programs():
         if_([bin_("eq", var("B"), num(2))], [[BREAK]]), disp(var("A"), var("B"))]), mark("o")]), ex(num(0))]))
     add("continue-inner-only", prog([iter_(["A"], lst(num(1), num(2)), [decl("J", num(0)), while_(bin_("lt", var("J"), num(3)), [
         ex(asg(var("J"), bin_("add", var("J"), num(1)))), if_([bin_("eq", var("J"), num(2))], [[CONT]]), disp(var("A"), var("J"))]), mark("o")]), ex(num(0))]))
+    # a condition that is not a boolean is an error at EVERY condition position, also when earlier arms were false
+    for nm, bad in (("number", num(1)), ("zero", num(0)), ("text", s("x")), ("null", NULL), ("list", lst(num(1)))):
+        add("elseif-cond-" + nm, prog([mark("a"), if_([b(False), bad], [[mark("1")], [mark("2")]], [mark("e")]), mark("c")]))
+        add("elseif3-cond-" + nm, prog([mark("a"), if_([b(False), b(False), bad, b(True)], [[mark("1")], [mark("2")], [mark("3")], [mark("4")]]), mark("c")]))
+        add("elseif-cond-fn-" + nm, prog([disp(call("F")), mark("after")],
+            funcs=[func("F", [], [if_([b(False), bad], [[ret(s("one"))], [ret(s("two"))]], [ret(s("else"))]), mark("never")])]))
+        add("if-cond-" + nm, prog([mark("a"), if_([bad], [[mark("b")]], [mark("e")]), mark("c")]))
+        add("while-cond-later-" + nm, prog([decl("C", b(True)), while_(var("C"), [mark("w"), ex(asg(var("C"), bad))]), mark("c")]))
+    add("elseif-cond-not-reached", prog([mark("a"), if_([b(True), num(1)], [[mark("1")], [mark("2")]]), mark("c")]))
     add("iter-not-collection", prog([mark("a"), iter_(["V"], num(5), [mark("b")]), mark("c")]))
     return P
 
@@ -159,7 +168,7 @@ def special_programs():
 def run(ctx):
     znh = common.build_harness(ctx)
     rnd = random.Random(ctx.seed)
-    maxsize = 4 if ctx.tier == "quick" else 5
+    maxsize = 4        # 8.6k skeletons; size <= 5 is 132k (x2 programs): 27 min of TLC alone, measured - sampled instead
     sks = []
     for size in range(1, maxsize + 1):
         sks += list(blocks(size, False, 3))
@@ -168,8 +177,10 @@ def run(ctx):
         big = list(blocks(5, False, 3))
         extra = rnd.sample(big, min(1500, len(big)))
     else:
+        big = list(blocks(5, False, 3))
+        extra = rnd.sample(big, min(20000, len(big)))
         big = list(blocks(6, False, 3))
-        extra = rnd.sample(big, min(30000, len(big)))
+        extra += rnd.sample(big, min(12000, len(big)))
     progs = special_programs()
     for sk in sks + extra:
         t = sk_tag(sk)
@@ -184,7 +195,7 @@ def run(ctx):
     cov = dict(traces_validated_against_impl=stats["programs"] - stats["skipped"], samples=samples,
                evaluations=stats["programs"], distinct_nontrivial=len(set(p["tag"] for p in progs)),
                rule="control skeletons over {mark, if/elseif/else, while, iterate(list|dict|empty, 0/1/2 names), break, continue, return} "
-                    "nesting<=3: exhaustive up to size %d plus a seeded sample of the next size, each at top level and inside a method, plus "
+                    "nesting<=3: exhaustive up to size %d plus a seeded sample of the next size (thorough: 20000 of size 5 and 12000 of size 6), each at top level and inside a method, plus "
                     "hand-written corner programs; TLC runs the ZnEval machine on every program (invariants in every state) and emits result, "
                     "display trace and executed-statement trace; the interpreter's H2 line events must equal that trace, statement by statement "
                     "(line, call depth, scope-depth consistency), then display trace and result; distinct = distinct skeletons" % maxsize,
